@@ -210,6 +210,8 @@ class DewPoint:
     
     def __call__(self, z, *, T=None, P=None, gas_conversion=None):
         z = np.asarray(z, float)
+        z_sum = z.sum()
+        if z_sum > 0.: z = z / z_sum # Results depend only on the normalized composition
         if T:
             if P: raise ValueError("may specify either T or P, not both")
             P, *args = self.solve_Px(z, T, gas_conversion)
